@@ -29,12 +29,14 @@ def gen(rng):
         if not ep:
             rows = [r[1:] for r in rows]
         X = np.array(rows, dtype=float)
-        Xu, Xs = pykoop.shift_episodes(X, n_inputs=nu, episode_feature=ep)
-        e = 1 if ep else 0
-        Psi, Theta = Xu[:, e:].T, Xs[:, e:].T
-        q = Psi.shape[1]
-        if q == 0:
+        # the within-episode consecutive pairs, built independently of the implementation (their order is irrelevant for
+        # the Gram matrices: theorem C05_gram_perm)
+        eps_ref = [Xe for _, Xe in st.ref_split(X, ep) if Xe.shape[0] >= 2]
+        if not eps_ref:
             continue
+        Psi = np.vstack([Xe[:-1] for Xe in eps_ref]).T
+        Theta = np.vstack([Xe[1:, :nx] for Xe in eps_ref]).T
+        q = Psi.shape[1]
         alpha = rng.choice(ALPHAS)
         if shape == 'tall' and q < Psi.shape[0] + 1:
             continue
